@@ -742,15 +742,8 @@ func (c *Compiler) compileSlice(node *ast.Slice) error {
 	if err := c.compile(node.Left()); err != nil {
 		return err
 	}
-	to := node.ToIndex()
-	if to == nil {
-		c.emit(op.Copy, 0)
-		c.emit(op.Length)
-	} else {
-		if err := c.compile(to); err != nil {
-			return err
-		}
-	}
+	// The bounds are evaluated left to right (start, then stop); Slice expects
+	// the stop below the start, so the two are swapped afterwards
 	from := node.FromIndex()
 	if from == nil {
 		c.emit(op.LoadConst, c.constant(int64(0)))
@@ -759,6 +752,16 @@ func (c *Compiler) compileSlice(node *ast.Slice) error {
 			return err
 		}
 	}
+	to := node.ToIndex()
+	if to == nil {
+		c.emit(op.Copy, 1)
+		c.emit(op.Length)
+	} else {
+		if err := c.compile(to); err != nil {
+			return err
+		}
+	}
+	c.emit(op.Swap, 1)
 	c.emit(op.Slice)
 	return nil
 }
@@ -939,23 +942,27 @@ func (c *Compiler) compileConst(node *ast.Const) error {
 }
 
 func (c *Compiler) compileIn(node *ast.In) error {
-	if err := c.compile(node.Right()); err != nil {
-		return err
-	}
+	// Operands are evaluated left to right; ContainsOp expects the container
+	// below the value, so the two are swapped afterwards
 	if err := c.compile(node.Left()); err != nil {
 		return err
 	}
+	if err := c.compile(node.Right()); err != nil {
+		return err
+	}
+	c.emit(op.Swap, 1)
 	c.emit(op.ContainsOp, 0)
 	return nil
 }
 
 func (c *Compiler) compileNotIn(node *ast.NotIn) error {
-	if err := c.compile(node.Right()); err != nil {
-		return err
-	}
 	if err := c.compile(node.Left()); err != nil {
 		return err
 	}
+	if err := c.compile(node.Right()); err != nil {
+		return err
+	}
+	c.emit(op.Swap, 1)
 	c.emit(op.ContainsOp, 0)
 	c.emit(op.UnaryNot)
 	return nil
@@ -1444,12 +1451,15 @@ func (c *Compiler) compileAssign(node *ast.Assign) error {
 }
 
 func (c *Compiler) compileSetAttr(node *ast.SetAttr) error {
-	// Handle compound operators (*=, +=, etc.)
+	// Handle compound operators (*=, +=, etc.). The object expression is
+	// evaluated once: it is duplicated for the read, and the original is used
+	// for the store.
 	if node.Token().Type != token.ASSIGN {
 		// 1. Load the current value
 		if err := c.compile(node.Object()); err != nil {
 			return err
 		}
+		c.emit(op.Copy, 0)
 		idx := c.current.addName(node.Name())
 		c.emit(op.LoadAttr, idx)
 
@@ -1471,14 +1481,18 @@ func (c *Compiler) compileSetAttr(node *ast.SetAttr) error {
 		default:
 			return fmt.Errorf("compile error: unsupported compound assignment operator: %s", node.Token().Literal)
 		}
-	} else {
-		// Simple assignment
-		if err := c.compile(node.Value()); err != nil {
-			return err
-		}
+
+		// 4. Store the result back: [object, result] is swapped to the
+		// [result, object] that StoreAttr expects
+		c.emit(op.Swap, 1)
+		c.emit(op.StoreAttr, idx)
+		return nil
 	}
 
-	// 4. Store the result back
+	// Simple assignment
+	if err := c.compile(node.Value()); err != nil {
+		return err
+	}
 	if err := c.compile(node.Object()); err != nil {
 		return err
 	}
